@@ -33,6 +33,10 @@ def check(run):
     for kind in ('file-re', 'filelogger-re', 'rolling-re', 'rollinglogger-re', 'file2-re'):
         for lay in (0, 1):
             cases.append('%s %d %d %s %d %d' % (kind, lay, rng.choice([1, 4]), rng.choice(['kill', 'exit']), rng.choice([4, 25, 2000]), 1300 if 'rolling' in kind else 600))
+    # the console is a pipe nobody reads for 1.5 s: what a goroutine has been told is written must be in the pipe, not in another goroutine's hands
+    for lay in (0, 1):
+        for g in (2, 4):
+            cases.append('console-stall %d %d %s 1500 600' % (lay, g, rng.choice(['kill', 'exit'])))
     # long lines whose formatting buffer lands on / around the pooled-buffer capacity, several goroutines, slow-ish targets
     for kind in ('console', 'file', 'rolling'):
         for cap, pad in (('8KB', 5000), ('8KB', 8000), ('4KB', 3000), ('10KB', 9800)):
@@ -53,7 +57,7 @@ def check(run):
             run.discharged += 1
         nontriv = sum(1 for o in io if o.startswith('acked=') and int(o.split()[0][6:]) > 0)
         acks = sum(int(o.split()[0][6:]) for o in io if o.startswith('acked='))
-        run.stream('c20/crash-points', len(cases), nontriv, False, 'child process logging through a synchronous logger on a file / rolling-file (1 s rotation, crossing boundaries) / console appender, with the layout on the appender or on the logger (plus a lower-bounded reference), or through the RollingFile logger plugin (level, separate), or through two loggers whose appenders share one target file, or as the second configuration of the process on a relative path, either layout, 1-4 goroutines, process time zones from UTC-11 to UTC+14 with retention 1-720 h, lines of 3-10 KB around the pooled-buffer capacity (self-validating payloads), '
+        run.stream('c20/crash-points', len(cases), nontriv, False, 'child process logging through a synchronous logger on a file / rolling-file (1 s rotation, crossing boundaries) / console appender, with the layout on the appender or on the logger (plus a lower-bounded reference), or through the RollingFile logger plugin (level, separate), or through two loggers whose appenders share one target file, or as the second configuration of the process on a relative path, or on a console that is a stalled pipe, either layout, 1-4 goroutines, process time zones from UTC-11 to UTC+14 with retention 1-720 h, lines of 3-10 KB around the pooled-buffer capacity (self-validating payloads), '
                    'acknowledging every returned call on a pipe; SIGKILL after k acknowledgements or os.Exit right after call k; oracle: every acknowledged id is a complete line in the target '
                    '(%d acknowledged calls in total); non-trivial = at least one call acknowledged before the crash' % acks)
         run.coverage['samples'] += [{'stream': 'c20', 'case': cases[0], 'observation': io[0][:200]}, {'stream': 'c20', 'case': cases[-1], 'observation': io[-1][:200]}]
